@@ -43,7 +43,7 @@ class WorldC07(World):
               'reactions-written-in-two-orders', 'auto-and-user-ids-mixed', 'bep-transition-state', 'explicit-transition-state',
               'adsorption-reaction', 'lateral-interactions', 'unnamed-interaction', 'motz-wise-on', 'shomate-species', 'nasa9-species',
               'cti-executed', 'yaml-loaded', 'reactor-yaml', 'reactor-reused-dict', 'numpy-values', 'string-values-with-units',
-              'units-omitted', 'text-path', 'file-path', 'overwrite', 'write-after-failed-write', 'recovery-after-fault', 'write-through-symlink', 'relative-name-in-case-directory', 'alloc-failure-signalled', 'alloc-failure-over-existing-file',
+              'units-omitted', 'text-path', 'file-path', 'overwrite', 'write-after-failed-write', 'recovery-after-fault', 'write-through-symlink', 'objects-looked-at-between-writes', 'relative-name-in-case-directory', 'alloc-failure-signalled', 'alloc-failure-over-existing-file',
               'clock-jump-before-write', 'default-units', 'bep-section-judged', 'same-size-other-elements-after-a-write',
               'explicit-zero-barrier', 'non-ascii-name', 'write-with-partial-membership', 'nasa9-ranges-judged', 'reactor-initial-state',
               'capitalised-phase-names', 'phase-mechanism-links-judged')
@@ -207,6 +207,10 @@ class WorldC07(World):
             return self.plan.pop(0)
         side = side_stream(rng)
         op = self._gen_op0(rng)
+        if op is not None and self.live is not None and side.random() < 0.06:
+            return {'c': 0, 'op': 'touch', 'args': {
+                'calls': [side.choice(['str', 'to_dict', 'eq', 'to_string', 'sp_to_dict', 'ph_to_dict']) for _ in range(side.randint(1, 3))],
+                'sf': side.choice(['.0f', '.1f', '.2f', '.3f']), 'ts': side.random() < 0.7}}
         if op is not None and op['op'] in ('write_cti', 'write_thermo_yaml', 'write_yaml') and op['args'].get('to_file') \
                 and op.get('fault') is None and side.random() < 0.12:
             op['args']['link'] = True
@@ -580,6 +584,30 @@ class WorldC07(World):
             if len(phases) != len(md['rows']):
                 raise Violation('phase-membership', 'organize_phases returned %d phases for %d rows' % (len(phases), len(md['rows'])))
             out = len(phases)
+        elif name == 'touch':
+            # between two writes the caller looks at its objects: prints, compares, serialises them
+            try:
+                rx = self.live['reactions']
+                for what in a['calls']:
+                    if what == 'sp_to_dict':
+                        for sp_ in self.live['list']:
+                            sp_.to_dict()
+                    elif what == 'ph_to_dict':
+                        for ph_ in self.phases.values():
+                            ph_.to_dict()
+                    for i_, r_ in enumerate(rx):
+                        if what == 'str':
+                            str(r_)
+                        elif what == 'to_dict':
+                            r_.to_dict()
+                        elif what == 'eq':
+                            r_ == rx[(i_ + 1) % len(rx)]
+                        elif what == 'to_string':
+                            r_.to_string(stoich_format=a.get('sf', '.2f'), include_TS=a.get('ts', True))
+            except Exception:
+                raise Skip()           # whether these calls work is not this property's business
+            ctx.probe('objects-looked-at-between-writes')
+            out = 'touched'
         elif name in ('write_cti', 'write_thermo_yaml'):
             kit.tick(op)
             out = self._op_write_thermo(name, a, op.get('fault'))
